@@ -46,6 +46,25 @@ theorem u128_decode_total (bs : Bytes) :
       | some (p, r) => if uval p < 2 ^ 128 then .ok (uval p, r) else .err .overflow) :=
   decodeNat128_spec bs
 
+/-- Signed numbers: the minimal encoding of every integer is terminated, denotes that integer, and is read
+back with nothing consumed beyond it. -/
+theorem sleb_roundtrip (i : Int) (r : Bytes) :
+    Terminated (sleb i) ∧ sval (sleb i) = i ∧ specReadInt (sleb i ++ r) = some (i, r) :=
+  ⟨sleb_terminated i, sval_sleb i, specReadInt_sleb i r⟩
+
+/-- `Nat::encode` writes the minimal encoding for every natural number, on both of its paths (up to 2^64
+through the leb128 crate's loop, beyond through radix-128 groups); `leb128.rs::encode_nat` is the same loop. -/
+theorem nat_encode_minimal (n : Nat) : Impl.natEncode n = uleb n ∧ Impl.encodeNatLoop n = uleb n :=
+  ⟨natEncode_eq_uleb n, encodeNatLoop_eq_uleb n⟩
+
+/-- the loop of `leb128.rs::encode_int` / `leb128::write::signed` (the path `Int::encode` takes below 2^63 in
+magnitude, and `Encode!` at i128) writes the minimal signed encoding -/
+theorem int_encode_loop_minimal (i : Int) : Impl.encodeIntLoop i = sleb i := encodeIntLoop_eq_sleb i
+
+/-- hence an encoded natural number decodes to itself through `Nat::decode` -/
+theorem nat_encode_decode (n : Nat) (r : Bytes) : natDecode (Impl.natEncode n ++ r) = .ok (n, r) := by
+  rw [natEncode_eq_uleb, nat_decode_exact _ _ (uleb_terminated n), uval_uleb]
+
 /-- non-vacuity: a 19-byte padded string of value 1 and the 19-byte encoding of 2^128 -/
 example : Terminated ([0x81] ++ List.replicate 17 0x80 ++ [0x00]) := by simp [Terminated, List.replicate]
 example : decodeNat128 ([0x80, 0x80, 0x80, 0x80, 0x80, 0x80, 0x80, 0x80, 0x80, 0x80, 0x80, 0x80, 0x80, 0x80,
